@@ -463,4 +463,112 @@ func runC05(c *Ctx) {
 			c.ob("C05-R5", "cmd/glyph.executeRoute#builds-request", er.Pos(), false, "executeRoute does not build an interpreter.Request")
 		}
 	}
+
+	// ---- R6 binding fidelity
+	c.rule("C05-R6", "def-use: both engines bind a path parameter to the request segment itself: in server.matchRoute and interpreter.extractPathParams the value stored under a parameter name is an element of the split request path reached through no call other than the splitting/trimming of the whole path (no second percent-decoding, no case folding), and matchRoute decides static and parameter patterns alike over that one segmentation (every string comparison has an element of the segment slice on the request side, never the unsplit path)")
+	segElem := func(v ssa.Value) bool {
+		// element of a []string: load of IndexAddr, or Index
+		switch x := v.(type) {
+		case *ssa.UnOp:
+			if x.Op == token.MUL {
+				if ia, ok := x.X.(*ssa.IndexAddr); ok {
+					if sl, ok := ia.X.Type().Underlying().(*types.Slice); ok {
+						if bt, ok := sl.Elem().Underlying().(*types.Basic); ok && bt.Kind() == types.String {
+							return true
+						}
+					}
+				}
+			}
+		case *ssa.Index:
+			return true
+		}
+		return false
+	}
+	for _, site := range []struct{ rel, fn string }{{"pkg/server", "matchRoute"}, {interpPkg, "extractPathParams"}} {
+		fn := c.mustFn("C05-R6", site.rel, site.fn)
+		if fn == nil {
+			continue
+		}
+		n := 0
+		eachInstr(fn, func(_ *ssa.BasicBlock, _ int, ins ssa.Instruction) {
+			mu, ok := ins.(*ssa.MapUpdate)
+			if !ok {
+				return
+			}
+			if mt, ok := mu.Map.Type().Underlying().(*types.Map); !ok || mt.Elem().String() != "string" {
+				return
+			}
+			n++
+			// the value: an element of the split path, possibly through phis; no call on the way
+			viaCall := ""
+			var walk func(v ssa.Value, d int) bool
+			seen := map[ssa.Value]bool{}
+			walk = func(v ssa.Value, d int) bool {
+				if seen[v] || d > 12 {
+					return true
+				}
+				seen[v] = true
+				if segElem(v) {
+					return true
+				}
+				switch x := v.(type) {
+				case *ssa.Phi:
+					for _, e := range x.Edges {
+						if !walk(e, d+1) {
+							return false
+						}
+					}
+					return true
+				case *ssa.UnOp:
+					if x.Op == token.MUL {
+						if al, ok := x.X.(*ssa.Alloc); ok {
+							okAll := true
+							for _, r := range refs(al) {
+								if st, ok := r.(*ssa.Store); ok && st.Addr == ssa.Value(al) && !walk(st.Val, d+1) {
+									okAll = false
+								}
+							}
+							return okAll
+						}
+					}
+				case *ssa.Extract:
+					if nx, ok := x.Tuple.(*ssa.Next); ok && !nx.IsString {
+						return true // range over the segment slice / map
+					}
+					if call, ok := x.Tuple.(*ssa.Call); ok {
+						viaCall = callName(call)
+					}
+				case *ssa.Call:
+					viaCall = callName(x)
+				}
+				return false
+			}
+			ok2 := walk(mu.Value, 0)
+			why := "the bound value is not an element of the split request path"
+			if viaCall != "" {
+				why = "the bound value passes through " + short(viaCall) + " on its way from the request segment"
+			}
+			c.ob("C05-R6", fnKey(fn)+"#parameter-bound-to-the-segment-itself-"+itoa(n), mu.Pos(), ok2, why+": this engine binds a different string from the one the router matched and the other engine binds (net/http has already percent-decoded URL.Path once; decoding again turns %2520 into a space and %252F into a slash)")
+		})
+		if n == 0 {
+			c.ob("C05-R6", fnKey(fn)+"#binds-parameters", fn.Pos(), false, "no parameter binding found")
+		}
+	}
+	if mr := c.fn("pkg/server", "matchRoute"); mr != nil {
+		k := 0
+		eachInstr(mr, func(_ *ssa.BasicBlock, _ int, ins ssa.Instruction) {
+			bo, ok := ins.(*ssa.BinOp)
+			if !ok || (bo.Op != token.EQL && bo.Op != token.NEQ) {
+				return
+			}
+			if bt, ok := bo.X.Type().Underlying().(*types.Basic); !ok || bt.Kind() != types.String {
+				return
+			}
+			k++
+			c.ob("C05-R6", fnKey(mr)+"#compares-segment-with-segment-"+itoa(k), bo.Pos(), segElem(bo.X) || segElem(bo.Y), "matchRoute compares a pattern with something other than one segment of the split request path (e.g. the whole, unsplit path): static and parameter patterns then disagree about empty segments (trailing or doubled slashes), and `GET /posts/published/` runs the parameter route instead of the static one")
+		})
+		if k == 0 {
+			c.info("C05-R6", fnKey(mr)+"#no-string-comparison", mr.Pos(), "matchRoute compares no strings")
+		}
+	}
 }
